@@ -599,7 +599,10 @@ func evalModel(cs *modelCase) *verdict {
 	switch {
 	case d.Site > 0 && d.Unrewritten:
 		v.Class = "site-unrewritten"
-		v.Props = []string{"C01"}
+		// C01: every instance is rewritten; C03: a site is left unchanged only
+		// when the replacement is not admissible there (the reference has
+		// already set inadmissible sites aside).
+		v.Props = []string{"C01", "C03"}
 		if hasDots {
 			v.Props = append(v.Props, "C04")
 		}
